@@ -11,14 +11,21 @@ ASSUMPTIONS = ["event horizon K from every start state instead of an unbounded r
 
 
 def specs(tier, seed):
-    return fg.specs_sis(tier)
+    from eonmc import fam_event_sis as fs
+    return fg.specs_sis(tier) + fs.specs_fast_sis(tier)
 
 
 def run_spec(spec):
+    if spec["fn"] == "fast_SIS":
+        from eonmc import fam_event_sis as fs
+        return fs.run_fast_sis(spec, props=("C02",))
     return fg.run_spec(spec, props=("C02",))
 
 TECHNIQUE = "stateless explicit-state exploration of the implementation under an enumerating random source with event horizon K from every start state; per-state successor distribution and clock rate vs reference SIS chain"
-LEVEL_TEXT = ("Exhaustive within the bound: every execution of the real Gillespie_SIS up to K events from every non-empty infected set; in every "
+LEVEL_TEXT = ("fast_SIS: every expovariate-menu outcome up to the draw budget is executed and a clock-discipline monitor over the logged draws and queue pushes/pops "
+              "checks P1-P5 (right rates, clocks anchored now or at the end of the target's infectious period and independent of the drawn value, exactly one live clock per "
+              "infectious-adjacent pair, no stale clocks, output = executed events); with the GSMP argument this gives the SIS chain. Gillespie_SIS: "
+              "Exhaustive within the bound: every execution of the real Gillespie_SIS up to K events from every non-empty infected set; in every "
               "reached state (incl. reinfection and link re-insertion states) jump distribution and clock rate equal the reference chain's, "
               "which implies equality of the state distribution at every T<tmax.")
 LEVEL_NOTE = "trusted: reference chain in eonmc/ref.py; float tolerance 1e-9; horizon K and graph size bound"
